@@ -1377,6 +1377,7 @@ func (m *RadioTap) DecodeFromBytes(data []byte, df gopacket.DecodeFeedback) erro
 	offset += 4 // move past the previous present bitmap
 
 	// now we extract a namespace for each Present bitmap, the first is always a radio tap namespace
+	m.RadioTapValues, m.VendorValues = nil, nil
 	radioTapNamespace := true
 	vendorNamespace := false
 	for _, present := range m.Present {
